@@ -47,6 +47,15 @@ def dominates_blocks(body, a_blocks, b):
     return b not in reach_from(body, [0], blocked_blocks=a_blocks)
 
 
+def live_blocks(body):
+    """blocks reachable from the entry (switches on literals are already reduced to their live edge in Body.succ)"""
+    lb = getattr(body, '_live', None)
+    if lb is None:
+        lb = set(reach_from(body, [0])) | {0}
+        body._live = lb
+    return lb
+
+
 def must_pass_before_return(body, start, via_blocks, returns=None):
     """every path from start to a return block passes one of via_blocks"""
     returns = body.return_blocks() if returns is None else returns
